@@ -23,6 +23,7 @@ import (
 	"github.com/tink-crypto/tink-go/v2/verifharness/internal/detrand"
 	"github.com/tink-crypto/tink-go/v2/verifharness/internal/evid"
 	"github.com/tink-crypto/tink-go/v2/verifharness/internal/gen"
+	"github.com/tink-crypto/tink-go/v2/verifharness/internal/kf"
 	"github.com/tink-crypto/tink-go/v2/verifharness/internal/ref/eciesref"
 	"github.com/tink-crypto/tink-go/v2/verifharness/internal/tk"
 )
@@ -379,7 +380,7 @@ func checkECIES(t *rapid.T, c *eciesCase, pt, info []byte) int {
 		alt("ref-salt-info-exchanged", with(c.ref.Hash, info), c.salt)
 	}
 	// another recipient's private key, same parameters and prefix
-	priv2 := otherScalar(t, "other_private", c.priv, c.curve.ref.N)
+	priv2 := c.otherPrivate(t)
 	o, err := buildECIES(c.curve, c.hash, c.format, c.dem, c.salt, c.variant, c.id, c.route, priv2)
 	if err != nil {
 		t.Fatalf("%s\nother key pair private=%x: %v", desc(), priv2, err)
@@ -392,6 +393,21 @@ func checkECIES(t *rapid.T, c *eciesCase, pt, info []byte) int {
 	r.mustReject("ciphertext-for-other-key", oct, info)
 	r.record()
 	return r.n
+}
+
+// otherPrivate returns a scalar d2 with d2 != d and d2 != n-d. The negated scalar is left out on
+// purpose: it has the public point (x, p-y), the ECDH x-coordinate is the same for d and n-d, and
+// the recipient's public key does not enter the ECIES key derivation, so n-d decrypts whatever d
+// decrypts (see TestECIESNegatedKey).
+func (c *eciesCase) otherPrivate(t *rapid.T) []byte {
+	n := c.curve.ref.N
+	d := new(big.Int).SetBytes(c.priv)
+	neg := new(big.Int).Sub(n, d)
+	v := new(big.Int).SetBytes(otherScalar(t, "other_private", c.priv, n))
+	for v.Cmp(d) == 0 || v.Cmp(neg) == 0 { // at most two steps
+		v.Mod(v, new(big.Int).Sub(n, big.NewInt(1))).Add(v, big.NewInt(1))
+	}
+	return v.FillBytes(make([]byte, len(c.priv)))
 }
 
 func otherHash(h string) string {
@@ -414,9 +430,55 @@ func TestECIES(t *testing.T) {
 		} else if len(c.salt) == 0 {
 			saltClass = "emptysalt"
 		}
-		class := fmt.Sprintf("%s/%s/%s/%s/%s/%s/%s", c.curve.name, c.hash.name, c.format.name, c.dem.name, saltClass, c.variant, c.route)
+		class := fmt.Sprintf("%s/%s/%s/%s/%s", c.curve.name, c.hash.name, c.format.name, c.dem.name, c.variant)
+		evid.Add("salt_"+saltClass, 1)
+		evid.Add("route_"+c.route, 1)
+		evid.Add("info_"+infoClass(info), 1)
+		evid.Add("pt_"+gen.LenClass(len(pt)), 1)
 		evid.Case(class, true, evid.NewH().S(c.String()).B(pt).B(info).S(infoClass(info)).Sum(), func() any {
 			return map[string]any{"case": c.String(), "pt": gen.Hex(pt), "info": gen.Hex(info), "candidates": n}
 		})
+	})
+}
+
+const propID = "C06"
+
+// TestECIESNegatedKey: the property says that another private key yields an error. For
+// ECIES-AEAD-HKDF the private key n-d is another key (its public point is (x, p-y)) and yet
+// decrypts every ciphertext made for d. The check fails unless the coordinator has listed the
+// signature as a known finding.
+func TestECIESNegatedKey(t *testing.T) {
+	const sig = "ecies:negated-private-key-decrypts"
+	rapid.Check(t, func(rt *rapid.T) {
+		detrand.Seed(rapid.Uint64().Draw(rt, "entropy"))
+		c := drawECIES(rt)
+		pt := gen.Bytes(rt, "pt", 64)
+		info := gen.BytesOrNil(rt, "info", 64)
+		ct, err := c.enc.Encrypt(pt, info)
+		if err != nil {
+			rt.Fatalf("%v: Encrypt: %v", c, err)
+		}
+		neg := new(big.Int).Sub(c.curve.ref.N, new(big.Int).SetBytes(c.priv)).FillBytes(make([]byte, len(c.priv)))
+		if bytes.Equal(neg, c.priv) {
+			rt.Skip("n is odd: unreachable")
+		}
+		o, err := buildECIES(c.curve, c.hash, c.format, c.dem, c.salt, c.variant, c.id, c.route, neg)
+		if err != nil {
+			rt.Fatalf("%v: negated key %x: %v", c, neg, err)
+		}
+		if o.y.Cmp(c.y) == 0 || o.x.Cmp(c.x) != 0 {
+			rt.Fatalf("%v: negated scalar %x does not have the public point (x, p-y)", c, neg)
+		}
+		got, err := o.dec.Decrypt(ct, info)
+		evid.Case(fmt.Sprintf("negated/%s/%s/%s", c.curve.name, c.format.name, c.dem.name), true, evid.NewH().S(c.String()).B(pt).B(info).Sum(), func() any {
+			return map[string]any{"case": c.String(), "negated_private": hex.EncodeToString(neg), "accepted": err == nil}
+		})
+		if err == nil {
+			if kf.Listed(propID, sig) {
+				kf.Report(propID, sig)
+				return
+			}
+			rt.Fatalf("%v\npt=%s info=%s ciphertext=%s\nthe other private key n-d=%x (public point (%x,%x)) decrypts it: plaintext %s", c, fullHex(pt), fullHex(info), fullHex(ct), neg, o.x, o.y, fullHex(got))
+		}
 	})
 }
